@@ -181,6 +181,6 @@ pub fn spec() -> PropSpec {
         rule: "all well-typed programs up to the length bound over the instruction alphabet (map/filter/flat_map, shuffle, replication changes, keyed and global aggregations in one- and two-phase form, broadcast, split/merge, joins) plus loop/diamond/multi-sink templates x inputs x configurations (parallelism, batch mode, capacity, source partitioning); every schedule within the deviation bound; oracle = independent sequential interpreter, per-sink multiset equality; non-trivial = non-empty input",
         assumptions: &["deviation (delay) bound as reported; user functions are the fixed deterministic associative-commutative ones of the harness"],
         exhaustive_when_uncapped: false,
-        budget_s: (50, 3000),
+        budget_s: (50, 1500),
     }
 }
